@@ -416,9 +416,17 @@ func weightToken(w float32) string {
 	return fmt.Sprintf("?(%v)", w)
 }
 
-func (r *Runner) kval(tok string) []byte { return []byte("val-" + tok + "\r\n\x00\xa5") }
+// kval: binary-unfriendly bytes; in large-record profiles (Dim > 3) padded to several hundred bytes so that
+// KV records are larger than a VCREATE record
+func (r *Runner) kval(tok string) []byte {
+	v := "val-" + tok + "\r\n\x00\xa5"
+	if r.P.Dim > 3 {
+		v = strings.Repeat("~", r.P.Dim*6) + v
+	}
+	return []byte(v)
+}
 func (r *Runner) ktoken(b []byte) string {
-	s := string(b)
+	s := strings.TrimLeft(string(b), "~")
 	if strings.HasPrefix(s, "val-") && strings.HasSuffix(s, "\r\n\x00\xa5") {
 		return strings.TrimSuffix(strings.TrimPrefix(s, "val-"), "\r\n\x00\xa5")
 	}
